@@ -128,7 +128,11 @@ fn check(c: &Case, ctx: &mut Ctx) -> Option<Violation> {
         };
         match op {
             StoreOp::Enter { spelling, key, body, tag } => {
-                let text = format!("{} {}", spelling, body_text(body, *tag));
+                // a spelling that ends in `~` is typed without a blank between number and statement (`10PRINT "k1"`)
+                let text = match spelling.strip_suffix('~') {
+                    Some(sp) => format!("{}{}", sp, body_text(body, *tag)),
+                    None => format!("{} {}", spelling, body_text(body, *tag)),
+                };
                 let call = s.apply(&Op::Line(text.clone()))?;
                 ctx.calls(1);
                 if let Some(p) = call.panicked() {
@@ -357,7 +361,7 @@ impl Prop for C04 {
             let key = rng.pick(&keys);
             let op = match rng.below(20) {
                 0..=8 => StoreOp::Enter {
-                    spelling: spell(rng, key),
+                    spelling: if rng.chance(1, 6) { format!("{}~", key) } else { spell(rng, key) },
                     key,
                     body: match rng.below(8) {
                         0 if stops => Body::Stop,
@@ -376,7 +380,7 @@ impl Prop for C04 {
                     key,
                 },
                 12..=13 => StoreOp::Failed {
-                    text: match rng.below(5) {
+                    text: match rng.below(6) {
                         0 => format!("{} PRINT \"k{}", key, i),
                         1 => format!("{} C = 1.2.3", key),
                         2 => format!("{} PRINT % {}", key, i),
@@ -389,6 +393,9 @@ impl Prop for C04 {
                                 format!("{} PRINT \"k{}\"", n, i)
                             }
                         }
+                        // a number followed only by characters that are blank to Unicode but not to BASIC:
+                        // not a deletion, an untokenizable line
+                        4 => format!("{}{}", key, rng.pick(&["\u{a0}", " \u{3000} ", "\u{b}", "\n", " \u{2003}", "\u{feff}"])),
                         _ => format!("{} é", key),
                     },
                 },
